@@ -263,6 +263,7 @@ if TYPE_CHECKING:
     from tealer.teal.teal import Teal
     from tealer.teal.functions import Function
     from tealer.teal.basic_blocks import BasicBlock
+    from tealer.teal.subroutine import Subroutine
     from tealer.teal.instructions.instructions import Instruction
 
 
@@ -295,6 +296,8 @@ class DataflowTransactionContext(ABC):  # pylint: disable=too-few-public-methods
         self._path_contexts: Dict[str, Dict["BasicBlock", Dict["BasicBlock", Any]]] = defaultdict(
             dict
         )
+        # blocks that end the program while a subroutine is being executed. see `_calculate_livein`
+        self._subroutine_program_exit_blocks: Dict["Subroutine", List["BasicBlock"]] = {}
         if not self.BASE_KEYS:
             raise IncorrectDataflowTransactionContextInitialization(
                 f"BASE_KEYS are not initialized {self.__class__.__name__}"
@@ -719,10 +722,29 @@ class DataflowTransactionContext(ABC):  # pylint: disable=too-few-public-methods
             and len(block.called_subroutine.retsub_blocks) != 0
         ):
             # this block is the `callsub block` and `block.sub_return_point` is the block that will be executed after subroutine.
-            livein_information = self._intersection(
-                key, livein_information, liveout[block.sub_return_point]
-            )
+            # The execution continues successfully after the call only if the value is accepted from the return point or
+            # if the called subroutine (or one of the subroutines it calls) ends the program by itself.
+            after_call_information = liveout[block.sub_return_point]
+            for exit_block in self._program_exit_blocks(block.called_subroutine):
+                after_call_information = self._union(key, after_call_information, liveout[exit_block])
+            livein_information = self._intersection(key, livein_information, after_call_information)
         return livein_information
+
+    def _program_exit_blocks(self, subroutine: "Subroutine") -> List["BasicBlock"]:
+        """Return blocks of the subroutine, and of the subroutines it calls, which end the program."""
+        if subroutine not in self._subroutine_program_exit_blocks:
+            exit_blocks: List["BasicBlock"] = []
+            visited: List["Subroutine"] = []
+            worklist: List["Subroutine"] = [subroutine]
+            while worklist:
+                sub = worklist.pop()
+                if sub in visited:
+                    continue
+                visited.append(sub)
+                exit_blocks += [bi for bi in sub.blocks if leaf_block_global(bi)]
+                worklist += [bi.called_subroutine for bi in sub.blocks if bi.is_callsub_block]
+            self._subroutine_program_exit_blocks[subroutine] = exit_blocks
+        return self._subroutine_program_exit_blocks[subroutine]
 
     def _merge_information_backward(
         self,
